@@ -147,7 +147,7 @@ func (c *ctx) checkLegacy(t *service.TxRecord, ver, mtidFlag, callerFlag int, re
 	s := specOf("TxRecord")
 	m := dump(t, s)
 	rec := recText(m)
-	rc := replayCase{Op: "legacy", Items: []replayItem{{"TxRecord", rec}}, Rest: vh.Hex(rest), Ver: ver, MtidFlag: mtidFlag, CallerFlag: callerFlag}
+	rc := replayCase{Op: "legacy", Items: []replayItem{{"TxRecord", replayRec(t, s)}}, Rest: vh.Hex(rest), Ver: ver, MtidFlag: mtidFlag, CallerFlag: callerFlag}
 	rep.Case(fmt.Sprintf("legacy ver=%d mtid=%d caller=%d %s", ver, mtidFlag, callerFlag, rec), true)
 	rep.Count(fmt.Sprintf("legacy-caller-flag:%d", callerFlag))
 	rep.Count(fmt.Sprintf("legacy-version:%s", map[bool]string{true: ">=10", false: "<10"}[ver >= 10]))
